@@ -13,7 +13,7 @@ real WishboneCSRBridge. CSR side:
 import random
 
 from vmon import env  # noqa: F401
-from vmon.simkit import Top, Mon, simulate, bits
+from vmon.simkit import Top, Mon, simulate, bits, biased_bits
 
 from amaranth_soc import csr
 from amaranth_soc.csr import action
@@ -43,7 +43,7 @@ def gen_case(rng, tier, idx):
     lg = ratio.bit_length() - 1
     caw = rng.randint(max(1, lg), 8) if rng.random() < 0.85 else rng.choice([12, 16])
     return {"kind": "real" if idx % 3 == 2 else "stub", "cdw": cdw, "wdw": wdw, "caw": caw,
-            "cycles": 350 if tier == "quick" else 1000}
+            "cycles": (350 if tier == "quick" else 1000) * (8 if rng.random() < 0.04 else 1)}
 
 
 def run_case(case):
@@ -97,7 +97,7 @@ def run_case(case):
             adr = rng.choice(regs)["start"] >> lg
         selc = rng.choice(["all", "all", "rand", "one", "none"])
         sel = {"all": (1 << ratio) - 1, "rand": bits(rng, ratio), "one": 1 << rng.randrange(ratio), "none": 0}[selc]
-        return {"adr": adr, "sel": sel, "we": rng.getrandbits(1), "dat_w": bits(rng, wdw)}
+        return {"adr": adr, "sel": sel, "we": rng.getrandbits(1), "dat_w": biased_bits(rng, wdw)}
 
     async def bench(ctx):
         idle_left = 0
